@@ -163,6 +163,10 @@ def _db_prop(prop, mode, nq, nt, rule, nontrivial, extra_modes=()):
         design = [design_check("MCDB", "MCDBQuick.cfg" if quick else "MCDB.cfg")]
         fams = [Family(mode, "db", "DBTrace", db_gen.generate(mode, nq if quick else nt, seed * 31 + int(prop[1:])))]
         for (m2, q2, t2) in extra_modes:
+            if m2 == "sched":
+                fams += sched_families(tier, seed, rng, prop, q2, t2, q2, t2)
+                design += impl_design(tier)
+                continue
             fams.append(Family(m2, "db", "DBTrace", db_gen.generate(m2, q2 if quick else t2, seed * 37 + int(prop[1:]))))
         return design, fams, [prop], dict(rule=rule, nontrivial=nontrivial, assumptions=DB_ASSUME)
     return fn
@@ -231,7 +235,65 @@ def prop_C18(tier, seed, rng):
                      "requirements are evaluated on the logged function, not by equality with the documented scheme"])
 
 
+def sched_families(tier, seed, rng, prop, n_random_q, n_random_t, n_tlc_q, n_tlc_t):
+    """Schedule-replay families: random priority schedules + schedules printed by TLC from DBImpl.tla."""
+    import sched_gen
+    quick = tier == "quick"
+    fams = [Family("sched", "sched", "SchedTrace",
+                   sched_gen.generate(n_random_q if quick else n_random_t, seed * 41 + int(prop[1:])),
+                   env={"VERIF_FLUSH": "1"})]
+    cfg = "GenDBImpl2.cfg" if quick else "GenDBImpl3.cfg"
+    r = core.tlc("GenDBImpl", cfg=cfg, subdir="gen", workers=1, heap="6g", timeout=1500)
+    if not r["ok"]:
+        raise MachineryError("schedule generation failed:\n" + r.get("error", r["stdout"][-2000:]))
+    hists = core.scripts_from_tlc(r["stdout"])
+    total = len(hists)
+    # keep the maximal ones (every transition is a prefix of one of them) and sample
+    hists = [h for h in core.drop_prefixes([[str(x) for x in h] for h in hists])]
+    hists = sample(hists, n_tlc_q if quick else n_tlc_t, rng)
+    scripts = [sched_gen.from_tlc(rng, cfg, [int(x) for x in h]) for h in hists]
+    log(f"[gen] GenDBImpl/{cfg}: transitions={r['generated']} states={r['distinct']} schedules={total} used={len(scripts)}")
+    fams.append(Family("sched-tlc", "sched", "SchedTrace", scripts,
+                       dict(states=r["distinct"], transitions=r["generated"], scripts_total=total), env={"VERIF_FLUSH": "1"}))
+    return fams
+
+
+def impl_design(tier):
+    quick = tier == "quick"
+    d = [design_check("MCDBImpl", "MCDBImpl_none.cfg")]
+    if not quick:
+        d.append(design_check("MCDBImpl", "MCDBImplB_none.cfg"))
+        d.append(design_check("MCDBImpl", "MCDBImplLive.cfg"))
+        d.append(design_check("MCDBImpl", "MCDBImplLiveB.cfg"))
+    return d
+
+
+IMPL_MUTANTS = [("MCDBImpl_unlockBeforeStore.cfg", "Inv_C05_Serial"), ("MCDBImpl_loadBeforeLock.cfg", "Inv_C05_SeesEarlier"),
+                ("MCDBImpl_mergeFromBase.cfg", "Inv_C05_NoLost"), ("MCDBImpl_notifyBeforeStore.cfg", "Inv_C06_NotifyAfterStore"),
+                ("MCDBImpl_regDropped.cfg", "Inv_C05_RegKept"), ("MCDBImplB_unsortedLocks.cfg", "Deadlock")]
+
+
+def _sched_prop(prop, rule):
+    def fn(tier, seed, rng):
+        quick = tier == "quick"
+        design = [design_check("MCDB", "MCDBQuick.cfg" if quick else "MCDB.cfg")] + impl_design(tier)
+        if not quick:
+            design += [dict(mutant_check("MCDBImpl", c, e), states=0, transitions=0) for c, e in IMPL_MUTANTS]
+        fams = sched_families(tier, seed, rng, prop, 150, 3000, 250, 6000)
+        return design, fams, [prop], dict(
+            rule=rule, nontrivial=lambda ops: len(ops[0]["actors"]) >= 2 and len(ops[0]["schedule"]) >= 3,
+            assumptions=["goroutines are serialised by the verif hooks: one protocol step at a time; blocked = goroutine "
+                         "wait reason sync.Mutex.Lock", "bounded actor counts (<= 6 goroutines)"] + DB_ASSUME[1:3])
+    return fn
+
+
 PROPS = {
+    "C05": _sched_prop("C05", "configurations of 2-3 writers over overlapping and disjoint table sets (any order, duplicates), "
+                              "readers, a registrar calling NewTable while transactions are open, iterator close and the "
+                              "graveyard collector, replayed under random priority schedules with a probe of the committed "
+                              "state after every protocol step"),
+    "C10": _sched_prop("C10", "as C05; every blocked goroutine must be explained by a transaction sharing a table (or by the "
+                              "root mutex being held), probes (readers) must complete at every gate, all actors must finish"),
     "C18": prop_C18,
     "C17": prop_C17,
     "C01": _db_prop("C01", "c01", 300, 6000,
@@ -245,7 +307,7 @@ PROPS = {
                     "Changes(), initializer registration, InsertWatch) abort; the complete query battery, revisions, "
                     "channel bits and later transactions are compared with the pre-transaction state; non-trivial = "
                     "script contains an aborted transaction followed by the battery", _nt_abort,
-                    extra_modes=(("c07", 150, 3000), ("c19", 100, 2000))),
+                    extra_modes=(("c07", 150, 3000), ("c19", 100, 2000), ("sched", 150, 3000))),
     "C03": _db_prop("C03", "c03", 400, 8000,
                     "Insert/InsertWatch/Modify/Delete/DeleteAll/CompareAndSwap/CompareAndDelete with guards "
                     "{current, stale, future}, missing and present objects, tables not held, finished transactions; "
@@ -260,7 +322,7 @@ PROPS = {
                     "watch channels of every query kind on every index kind taken from fresh snapshots before each "
                     "transaction plus InsertWatch; channel bits sampled at hand-out and after every commit/abort; "
                     "non-trivial = a tracked channel exists when a transaction ends", _nt_watch,
-                    extra_modes=(("c07", 100, 2000), ("kf_l", 20, 100))),
+                    extra_modes=(("c07", 100, 2000), ("kf_l", 20, 100), ("sched", 120, 2500))),
     "C07": _db_prop("C07", "c07", 400, 8000,
                     "up to 4 change iterators created at arbitrary points (also in aborted transactions); Next with "
                     "fresh/retained snapshots and write transactions holding uncommitted changes of the table, full and "
@@ -268,14 +330,16 @@ PROPS = {
                     "non-trivial = Next after a delete", _nt_iter),
     "C08": _db_prop("C08", "c08", 400, 8000,
                     "as C07 with graveyard size observed (public Metrics) after virtual-time waits: lower bound always, "
-                    "exact after quiescence; non-trivial = Next after a delete", _nt_iter),
+                    "exact after quiescence; non-trivial = Next after a delete", _nt_iter,
+                    extra_modes=(("sched", 100, 2000),)),
     "C09": _db_prop("C09", "c09", 300, 6000,
                     "as C03 plus Table.Revision on every source and ByRevision queries for bounds 0..8; non-trivial = "
                     ">= 2 writes", _nt_write),
     "C19": _db_prop("C19", "c19", 400, 8000,
                     "up to 3 initializers registered/completed across committed and aborted transactions mixed with "
                     "writes; Initialized/PendingInitializers on every snapshot and transaction, init channel bits after "
-                    "every commit/abort; non-trivial = a registration and a completion", _nt_init),
+                    "every commit/abort; non-trivial = a registration and a completion", _nt_init,
+                    extra_modes=(("sched", 100, 2000),)),
     "C11": prop_C11,
     "C12": prop_C12,
     "C13": prop_C13,
